@@ -401,6 +401,13 @@ def decorate(g, rnd, typed=0.25, dflt=0.25, vtypes=True, strings=0.2, ctx=0.0, r
     if ctx:
         for i, r in enumerate(g.rules):
             if r.ftor == 'x' and rnd.random() < 0.3: g.rules[i] = Rule(r.lhs, r.rhs, rnd.choice([1, 2, 3]), r.ftor)
+    rts = [j for j, t in enumerate(g.terms) if t.kind == 'r']
+    if len(rts) >= 2 and rnd.random() < 0.3:
+        # the display name of a regex term is for messages only: several terms may carry the same one (a decimal and a hex literal both shown as
+        # "number"), or the spelling of another term
+        other = next((t.text for t in g.terms if t.kind == 's'), None)
+        nm = other if (other and rnd.random() < 0.3) else 'number'
+        for j in rts: g.terms[j] = Term('r', g.terms[j].text, g.terms[j].prec, g.terms[j].assoc, name=nm, typed=g.terms[j].typed)
     g.note += '+decorated'
     return g
 
